@@ -97,6 +97,12 @@ def main():
                 old = json.load(open(mp))
                 if old.get('confirmed_via_repo_flow'):
                     meta['confirmed_via_repo_flow'] = old['confirmed_via_repo_flow']
+                # hand-written annotations survive a re-run
+                for k in ('rebased', 'retargeted', 'written_against', 'not_caught'):
+                    if k in old:
+                        meta[k] = old[k]
+                if 'retargeted' in old:
+                    meta['breaks_property'] = old['breaks_property']
             except Exception:
                 pass
         json.dump(meta, open(mp, 'w'), indent=1)
